@@ -432,6 +432,9 @@ func main() {
 	var violations []confirmed
 	seenSig := map[string]bool{}
 	harnessTrouble := []string{}
+	// search findings that a fresh process did not show again: harness trouble (exit 2) when nothing
+	// else was confirmed; a note beside the confirmed violations otherwise
+	unreproduced := []string{}
 
 	for _, jr := range results {
 		if jr == nil {
@@ -541,8 +544,27 @@ func main() {
 				violations = append(violations, confirmed{v.Sig, "[race detector report; the replay of the same concurrent workload did not show the same pair again]\n" + v.Detail, v.Replay})
 				continue
 			}
-			if !rep2.Replay.Violated || rep2.Replay.Sig != v.Sig {
-				harnessTrouble = append(harnessTrouble, fmt.Sprintf("replay of %s does not reproduce %s (got violated=%v %s): harness nondeterminism", v.Replay, v.Sig, rep2.Replay.Violated, rep2.Replay.Sig))
+			if rep2.Replay.Violated && rep2.Replay.Sig != v.Sig {
+				// The replay file does reproduce a violation of the property, but the oracle names it
+				// differently than the search did (state outside the plan - allocator pools, caches
+				// warmed by earlier runs of the same worker - moved the first observable difference).
+				// What the fresh process shows is what is reported, under its own signature.
+				sig2 := rep2.Replay.Sig
+				isKnown := false
+				for i, re := range knownRe {
+					if re.MatchString(sig2) {
+						knownHit[i]++
+						isKnown = true
+					}
+				}
+				if !isKnown && !seenSig[sig2] {
+					seenSig[sig2] = true
+					violations = append(violations, confirmed{sig2, "[the search reported " + v.Sig + "; the replay in a fresh process shows]\n" + rep2.Replay.Detail, v.Replay})
+				}
+				continue
+			}
+			if !rep2.Replay.Violated {
+				unreproduced = append(unreproduced, fmt.Sprintf("replay of %s does not reproduce %s (no violation in a fresh process): harness nondeterminism", v.Replay, v.Sig))
 				continue
 			}
 			seenSig[v.Sig] = true
@@ -550,6 +572,13 @@ func main() {
 		}
 	}
 
+	if len(violations) == 0 {
+		harnessTrouble = append(harnessTrouble, unreproduced...)
+	} else {
+		for _, u := range unreproduced {
+			fmt.Fprintf(os.Stderr, "check: note: %s\n", u)
+		}
+	}
 	wall := time.Since(start).Seconds()
 	// evidence
 	writeEvidence(p, tier, seed, merged, len(fpset), len(violations), wall, knownHit, known, harnessTrouble)
